@@ -16,6 +16,7 @@ Model <-> implementation
 """
 import asyncio as aio
 import hashlib
+import logging
 
 from harness.vloop import Session
 from harness import tlaval
@@ -30,6 +31,8 @@ from ndn.schema import policy
 from ndn.schema.schema_tree import Node, NodeExistsError, LocalResourceNotExistError, MatchedNode  # noqa: F401
 from ndn.schema.simple_cache import MemoryCache, MemoryCachePolicy
 from ndn.schema.simple_node import SegmentedNode, LocalResource
+
+logging.getLogger('ndn').setLevel(logging.CRITICAL)
 
 LIFETIME = 500          # ms, Interest lifetime of every need()
 SEG_SIZE = 2            # SegmentedNode.segment_size (bytes)
@@ -180,12 +183,15 @@ def comp_real(c):
     return bytes(Component.from_bytes(v.encode(), ty))
 
 
+DIGESTS = {}        # digest bytes -> label "#<parameter bytes>/<signer>" of the Interests seen so far (see note_interest)
+
+
 def val_model(ty, raw):
     raw = bytes(raw)
     if ty == Component.TYPE_SEGMENT:
         return str(int.from_bytes(raw, 'big'))
     if ty == Component.TYPE_PARAMETERS_SHA256:
-        return '#'
+        return DIGESTS.get(raw, '#?')
     return raw.decode('latin-1')
 
 
@@ -199,7 +205,7 @@ def env_val(raw):
     """value of a pattern variable (the type of the component is not kept in env)"""
     raw = bytes(raw)
     if len(raw) == 32:
-        return '#'
+        return DIGESTS.get(raw, '#?')
     if raw and all(0x21 <= x < 0x7f for x in raw):
         return raw.decode()
     return str(int.from_bytes(raw, 'big'))
@@ -274,6 +280,11 @@ def data_model(wire):
 
 def interest_model(wire):
     name, param, ap, sig = enc.parse_interest(wire)
+    if name and Component.get_type(name[-1]) == Component.TYPE_PARAMETERS_SHA256:
+        s = signer_of(sig, digest='digest')
+        if s == 'digest' and not digest_ok(sig):
+            s = 'bad'
+        DIGESTS[bytes(Component.get_value(name[-1]))] = '#' + (bytes(ap).decode('latin-1') if ap is not None else '') + '/' + s
     return {'t': 'I', 'n': name_model(name), 'ap': content_model(ap), 's': signer_of(sig, digest='digest'),
             'cbp': bool(param.can_be_prefix)}
 
@@ -461,7 +472,11 @@ class Run:
         content, meta = r
         std = ('content_type', 'freshness_period', 'final_block_id', 'block_count')
         fbi = meta.get('final_block_id')
-        return {'op': op, 'k': 'data', 'c': content_model(content),
+        if 'block_count' in meta:       # the joined segments: plain bytes whatever they look like
+            cm = {'k': 'c', 'e': '', 'v': bytes(content).decode('latin-1')}
+        else:
+            cm = content_model(content)
+        return {'op': op, 'k': 'data', 'c': cm,
                 'env': sorted([k, env_val(v)] for k, v in meta.items() if k not in std),
                 'path': self.pdata[-1] if self.pdata else ['?'],
                 'fbi': comp_model(fbi) if fbi is not None else list(NOCOMP), 'blocks': meta.get('block_count', 0)}
@@ -635,6 +650,7 @@ class Run:
         signer = None if sg == 'none' else DigestSha256Signer() if sg == 'good' else BadDigestSigner()
         wire, fname = enc.make_interest(name_real(name), InterestParam(lifetime=4000), content_real(ap), signer=signer,
                                         need_final_name=True)
+        interest_model(bytes(wire))        # notes the digest
         self._deliver(bytes(wire))
         self._scan()
         k = 'hit' if any(p['t'] == 'D' for p in self.sent) else 'proc' if self.ints else 'nothing'
@@ -660,8 +676,8 @@ class Run:
         caches = {}
         for cid, c in self.caches.items():
             ents = []
-            for k, v in c.data.items():
-                ents.append({'n': name_model(k), 'p': data_model(v)})
+            for k, v in c.data.iteritems():      # the trie hands out its internal path list: convert while iterating
+                ents.append({'n': name_model(list(k)), 'p': data_model(v)})
             caches[cid] = sorted(ents, key=lambda e: repr(e['n']))
         filt = sorted((name_model(list(k)) for k, n in self.app._prefix_tree.iteritems() if n.callback is not None), key=repr)
         return {'tree': sorted(nodes, key=lambda n: repr(n['path'])), 'rprefix': name_model(self.root.prefix),
